@@ -396,7 +396,36 @@ fn copies_and_case(ctx: &mut Ctx, base: &Xstate) {
     ctx.tag("copies-and-case");
 }
 
+/// what a C host sees of a value (`xeh_is_*`, `xeh_bitstr_len`, `xeh_vector_len`, `xeh_vector_at`) does not depend on
+/// whether it carries tags (repair of /repo: the entry points used to match on the raw cell, so a read result — always
+/// tagged — was "not an int")
+fn c_api_view(c: &Cell) -> String {
+    use xeh::c_api::*;
+    let p: *const Cell = c;
+    unsafe {
+        let at0 = xeh_vector_at(p, 0);
+        let first = if at0.is_null() { "-".to_string() } else { let s = canon::cell(&strip(&*at0)); xeh_release(at0); s };
+        format!("nil={} int={} real={} str={} vec={} bits={} bitlen={} veclen={} at0={}", xeh_is_nil(p), xeh_is_int(p), xeh_is_real(p), xeh_is_string(p),
+            xeh_is_vector(p), xeh_is_bitstr(p), xeh_bitstr_len(p), xeh_vector_len(p), first)
+    }
+}
+
+fn c_api_blind(ctx: &mut Ctx) {
+    let pool: Vec<Cell> = vec![Cell::Nil, Cell::Int(7), Cell::Real(2.5), Cell::from("s"), vec_cell(&[Cell::Int(1), Cell::from("x")]), vec_cell(&[]),
+        Cell::Bitstr(Xbitstr::from(vec![0xA5u8, 0x0F])), Cell::Flag(true)];
+    for c in &pool {
+        let plain = c_api_view(c);
+        for d in 0..2 {
+            let t = tag_deep(&mut ctx.rng, c, d);
+            let got = c_api_view(&t);
+            ctx.check(plain == got, || format!("C13 C API view of {} | tagged: {}", canon::cell(c), canon::cell(&t)), || plain.clone(), || got.clone());
+        }
+    }
+    ctx.tag("c-api-view");
+}
+
 pub fn run(ctx: &mut Ctx) {
+    c_api_blind(ctx);
     let mut base = Xstate::boot().unwrap();
     base.intercept_stdout(true);
     // a binary input so that the reading words (u8, i16le, float, bytes, magic …) have something to read
